@@ -56,7 +56,13 @@ def run_case(case, ctx):
         return {'nontrivial': False, 'counters': {'skipped_segyio_infers_regular_cube': 1}}
     geom = case['src']['geom']
     sgz, exp = sc.file('o.sgz'), sc.file('e.sgy')
-    conv.convert_segy(src['path'], sgz, case['rate'], tuple(case['bs']), detection=case['detection'])
+    det = case['detection']
+    if det == 'heuristic' and not gen.heuristic_precondition(src['headers']):
+        # outside the heuristic's stated precondition (e.g. inline and crossline numbers agreeing on the first and on the last trace of a
+        # square cube) the SGZ legitimately holds other header values (C04); the round trip is then decided with thorough detection
+        det = 'thorough'
+    case = dict(case, detection=det)
+    conv.convert_segy(src['path'], sgz, case['rate'], tuple(case['bs']), detection=det)
     known = 'export:source-with-extended-textual-headers' if case['src'].get('ext', 0) else None
     bad = []
     try:
